@@ -226,7 +226,11 @@ impl<'a> Gen<'a> {
                 let mut sig = { let n_ = self.rng.range(0, 12) as usize + 1; self.rng.bytes(n_) }; let l = sig.len(); if self.rng.chance(2, 3) { sig[l - 1] |= 0x40; } else { sig[l - 1] &= !0x40; }
                 if self.rng.chance(1, 10) { sig.clear(); }
                 let pk = { let n_ = self.rng.range(0, 5) as usize; self.rng.bytes(n_) };
-                if self.rng.chance(1, 3) { self.op(171); }
+                // sometimes the raw signature bytes also occur at an opcode boundary BEFORE a code separator
+                // (remove_sig must work on script[check_index..], not on the whole script)
+                let early = self.rng.chance(1, 4) && !sig.is_empty();
+                if early { let mut o = std::mem::take(&mut self.out); push_with(&mut o, &sig, 0); o.push(117); self.out = o; }
+                if early || self.rng.chance(1, 3) { self.op(171); }
                 self.pushd(&sig); self.pushd(&pk);
                 let v = self.rng.chance(1, 3); self.op(if v { 173 } else { 172 });
                 let c_ = *self.rng.pick(&['t', 't', 't', 'f', 'e']); self.sig_outcomes.push(c_); self.dec(if v { 2 } else { 1 });
